@@ -461,3 +461,69 @@ pub fn o_drain(a: &Analysis) -> Vec<Violation> {
     }
     out
 }
+
+/// Bounded progress beyond "no hang" (C06): a sender that waited until it was released by a close / disconnect
+/// although, while it was waiting, more values were taken by receive operations than there were senders waiting
+/// ahead of it — every receive that takes a value while senders wait must complete the sender at the head of the
+/// wait list (refill of the buffer or direct hand-off). Symmetrically for waiting receivers and successful sends.
+pub fn o_progress(a: &Analysis) -> Vec<Violation> {
+    let mut out = Vec::new();
+    // registrations that outlive their operation record (explicit future slots, abandoned stream waits) are not
+    // tracked precisely enough for this counting argument
+    let untracked = a.d.recs.iter().any(|r| {
+        matches!(r.op, Op::FutSend { .. } | Op::FutRecv { .. } | Op::FutPoll { .. }) || (matches!(r.op, Op::StreamNext { .. }) && r.res == Res::Cancelled)
+    });
+    if untracked {
+        return out;
+    }
+    // ---- starving senders
+    let waiting_sends: Vec<&crate::oracle::SendEv> = a.sends.iter().filter(|s| s.reg.is_some() && s.ret != 0).collect();
+    for s in waiting_sends.iter() {
+        let released = s.status == SendStatus::Failed && matches!(s.err, Some(E::Closed) | Some(E::ReceiveClosed));
+        if !released {
+            continue;
+        }
+        let t = s.reg.unwrap();
+        // senders that registered before s and had not returned when s registered
+        let ahead = waiting_sends.iter().filter(|o| o.id != s.id && o.reg.unwrap() < t && o.ret > t).count();
+        // values obtained by receive operations that began after s was waiting and ended before s returned
+        let taken = a.recvs.iter().filter(|r| r.inv > t && r.ret != 0 && r.ret < s.ret).count();
+        if taken > ahead {
+            out.push(v(
+                format!("progress/sender-starved@{}", s.kind),
+                format!(
+                    "{} of id {} waited in the channel until it was released with {:?}, although {} values were taken by receive operations that began while it was waiting and only {} senders were waiting ahead of it",
+                    s.kind, s.id, s.err, taken, ahead
+                ),
+            ));
+            break;
+        }
+    }
+    // ---- starving receivers
+    let waiting_recvs: Vec<&Rec> = a
+        .d
+        .recs
+        .iter()
+        .filter(|r| r.reg.is_some() && r.ret != 0 && r.op.is_recv_like())
+        .collect();
+    for r in waiting_recvs.iter() {
+        let released = matches!(r.res, Res::RecvErr(E::Closed) | Res::RecvErr(E::SendClosed)) && matches!(r.op, Op::Recv { .. } | Op::ARecv { .. });
+        if !released {
+            continue;
+        }
+        let t = r.reg.unwrap();
+        let ahead = waiting_recvs.iter().filter(|o| !std::ptr::eq(**o, *r) && o.reg.unwrap() < t && o.ret > t).count();
+        let sent = a.sends.iter().filter(|s| s.status == SendStatus::Ok && s.inv > t && s.ret < r.ret).count();
+        if sent > ahead {
+            out.push(v(
+                format!("progress/receiver-starved@{}", r.op.kind()),
+                format!(
+                    "{:?} waited until it was released with {:?}, although {} sends that began while it was waiting succeeded and only {} receivers were waiting ahead of it",
+                    r.op, r.res, sent, ahead
+                ),
+            ));
+            break;
+        }
+    }
+    out
+}
